@@ -304,12 +304,20 @@ def _chain(model, steering, owner, source, noise, perm, blur, dhtv, iterations, 
     return res
 
 
+def _ref_plan(dhtv, F):
+    from .. import pyref
+    return pyref.ref_plan(F, dhtv['segment_start'], dhtv['segment_width'], dhtv['segment_shift'],
+                          dhtv['main_iterations'], dhtv['sub_iterations'])
+
+
 def _domain(steering, owner, source, noise, perm, dhtv):
     why = pu.scene_in_domain(steering, owner, source, noise)
     if why:
         return why
     F = steering.shape[0]
-    plan = pa.DHTVPermutationAlignment(**dhtv).alignment_plan
+    # the premise is about the CONFIGURATION: judge it on the documented plan construction, not on whatever
+    # the library's alignment_plan returns (a broken plan must not turn the scene into "outside the domain")
+    plan = _ref_plan(dhtv, F)
     if 3 * dhtv['segment_shift'] > dhtv['segment_width'] and (dhtv['stft_size'], dhtv['segment_start'],
                                                                 dhtv['segment_width'], dhtv['segment_shift']) not in (
             (512, 70, 100, 20), (1024, 100, 100, 20)):
@@ -380,7 +388,7 @@ def _draw_case(rng, Fs):
     noise_db = -float(rng.choice([40, 40, 40, 45, 50, 60]))
     steering, owner, source, noise, akind = pu.make_scene(rng, K, D, F, T, noise_db)
     dhtv, pkind = pu.dhtv_cfg(rng, F)
-    plan = pa.DHTVPermutationAlignment(**dhtv).alignment_plan
+    plan = _ref_plan(dhtv, F)
     perm = pu.perm_field(rng, K, F, plan, majority=0.70 if rng.random() < 0.4 else None)
     blur = float(rng.uniform(0.5, 0.9))
     return dict(steering=steering, owner=owner, source=source, noise=noise, perm=perm, blur=blur, dhtv=dhtv,
@@ -413,7 +421,7 @@ def search(ctx):
             for bf in pu.BEAMFORMERS:
                 oks[bf] = ctx.run(output_sir, _size=size, beamformer=bf, noise_variant=nv, model=model,
                                   global_variant=gv, **case)
-            if i < 3:
+            if i < 3 and _CACHE.get('last') is not None:
                 r = _CACHE['last'][2]
                 ctx.sample({'oracle': 'map_accuracy+output_sir', **info, 'model': model, 'global_alignment': gv,
                             'noise_psd': nv, 'blur': round(case['blur'], 3), 'dhtv': case['dhtv'],
